@@ -1271,8 +1271,9 @@ class Context:
         rs = str(r)
         self.stats.verdicts[rs] += 1
         ob[rs] += 1
-        if self.export_hook is not None and not isinstance(claim, bool):
-            self.export_hook(label, pc, neg, rs)
+        if self.crosscheck_left > 0 and not isinstance(claim, bool) and rs in ("unsat", "sat"):
+            self.crosscheck_left -= 1
+            self._crosscheck(s, rs, label)
         if rs == "unsat":
             self._sample(label, claim)
             return True
@@ -1291,6 +1292,40 @@ class Context:
 
     export_hook = None
     cex_eval = None
+    crosscheck_left = 0
+
+    def _crosscheck(self, solver, verdict, label):
+        """decide the same query a second time with cvc5 (SMT-LIB2 export); a disagreement is a harness error."""
+        st = self.stats.__dict__.setdefault("crosscheck", {"agree": 0, "cvc5_unknown": 0, "disagree": 0, "error": 0})
+        try:
+            import cvc5
+            txt = "(set-logic ALL)\n" + solver.to_smt2()
+            # z3 prints division by a non-zero constant with its internal total variants
+            for op in ("bvudiv", "bvurem", "bvsdiv", "bvsrem", "bvsmod"):
+                txt = txt.replace("(%s_i " % op, "(%s " % op)
+            slv = cvc5.Solver()
+            slv.setOption("tlimit-per", "10000")
+            p = cvc5.InputParser(slv)
+            p.setStringInput(cvc5.InputLanguage.SMT_LIB_2_6, txt, "q")
+            sm = p.getSymbolManager()
+            out = ""
+            while True:
+                cmd = p.nextCommand()
+                if cmd.isNull():
+                    break
+                r = cmd.invoke(slv, sm)
+                if r.strip():
+                    out = r.strip().split()[0]
+            if out in ("sat", "unsat"):
+                if out == verdict:
+                    st["agree"] += 1
+                else:
+                    st["disagree"] += 1
+                    self.stats.inconclusive.append("SOLVER-DISAGREEMENT on %s: z3 %s, cvc5 %s" % (label, verdict, out))
+            else:
+                st["cvc5_unknown"] += 1
+        except Exception:
+            st["error"] += 1
 
     def fail(self, label, info=None):
         if isinstance(info, dict) and proxy_artifact(str(info.get("exc", ""))):
@@ -1345,7 +1380,7 @@ class Result:
 def explore(harness, params=None, width=DEFAULT_WIDTH, max_paths=200000, max_decisions=200000,
             query_timeout_ms=120000, seed=0, pins=None, allow_mul=False, tactic=None,
             stop_on_cex=4, time_budget=None, setup=None, logic="QF_BV", unknown_is_feasible=False,
-            feas_timeout_ms=None):
+            feas_timeout_ms=None, crosscheck=0):
     """Run `harness(ctx, **params)` once per feasible decision sequence (DFS)."""
     global _CTX
     params = params or {}
@@ -1353,6 +1388,7 @@ def explore(harness, params=None, width=DEFAULT_WIDTH, max_paths=200000, max_dec
     c = Context(width=width, max_decisions=max_decisions, query_timeout_ms=query_timeout_ms,
                 seed=seed, allow_mul=allow_mul, tactic=tactic)
     c.pins = pins
+    c.crosscheck_left = crosscheck
     res = Result()
     work = [[]]
     prev = _CTX
